@@ -271,6 +271,9 @@ class Lab:
         self.main_task = None
         self.exit_code = None
         self.taps_installed = False
+        self.writes_started = 0
+        self.writes_done = 0
+        self.last_write_done = 0.0
 
     # ------------------------------------------------------------- events
     def event(self, kind: str, **kw) -> None:
@@ -287,10 +290,13 @@ class Lab:
         s.close()
         return port
 
-    def listen(self, port: int, policy: str = 'accept') -> None:
+    def listen(self, port: int, policy: str = 'accept', rcvbuf: int | None = None) -> None:
         """remote speaker listens where ExaBGP will connect (`connect <port>` in the neighbor)"""
         srv = socket.socket(socket.AF_INET, socket.SOCK_STREAM)
         srv.setsockopt(socket.SOL_SOCKET, socket.SO_REUSEADDR, 1)
+        if rcvbuf:
+            # a small receive window (inherited by accepted sockets): lets a remote which stops reading block ExaBGP's writer
+            srv.setsockopt(socket.SOL_SOCKET, socket.SO_RCVBUF, rcvbuf)
         srv.bind(('127.0.0.1', port))
         srv.listen(16)
         srv.setblocking(False)
@@ -396,7 +402,12 @@ class Lab:
 
         async def writer_async(conn, data):
             lab.event('write', conn=cid(conn), direction=conn.direction, mtype=bytes(data)[18] if len(data) > 18 else -1, length=len(data), open=conn.io is not None)
-            return await orig_writer(conn, data)
+            lab.writes_started += 1
+            try:
+                return await orig_writer(conn, data)
+            finally:
+                lab.writes_done += 1
+                lab.last_write_done = lab.clock.now
 
         Connection.writer_async = writer_async
 
